@@ -9,7 +9,6 @@ import (
 	"sort"
 	"strconv"
 	"strings"
-	"time"
 
 	"google.golang.org/protobuf/encoding/protojson"
 	"google.golang.org/protobuf/reflect/protoreflect"
@@ -354,7 +353,7 @@ type c20Spec struct {
 // C20: the optional mock server builds and answers with contract-conformant examples.
 func C20(c *Ctx) error {
 	res := c.Res
-	res.Rule = "accepted schemas with generate_mock=true: the full kind x cardinality matrix of single response fields (17 kinds + Timestamp x singular/optional/repeated/map/oneof, map key kinds), generated responses (1-2 services, 1-3 RPCs each, nested / colliding / repeated / map / optional / enum / oneof fields, example lists: plain, non-ASCII, empty, unparsable, boundary numerals, Go escapes, literal-breaking) and recursive response types; " +
+	res.Rule = "accepted schemas with generate_mock=true: the full kind x cardinality matrix of single response fields (17 kinds + Timestamp x singular/optional/repeated/map/oneof, map key kinds), generated responses (1-2 services, 1-3 RPCs each, nested / colliding / repeated / map / optional / enum / oneof / self- and mutually recursive fields, example lists: plain, non-ASCII, empty, unparsable, boundary numerals, Go escapes, literal-breaking) and recursive response types (self, mutual, through map values, oneof members, nested types, repeated only); " +
 		"each schema is generated, compiled and vetted with go-http+go-client, every RPC of a built schema is called repeatedly through the real server backed by NewMock<Service>Server(); a case is one (schema build) or one (RPC invocation); non-trivial = the response type has at least one populated field or one example; distinct by (schema shape, rpc, request variant) - repeated invocations of one request differ only in the mock's own random draws"
 	res.Assumptions = append(res.Assumptions, "strconv.ParseFloat and the protojson text of a double enter the model as a table computed by the real library",
 		"'accepted' = all five plugins answer without error when generate_mock is off")
@@ -401,6 +400,16 @@ func C20(c *Ctx) error {
 			kind = "buildable"
 		}
 		specs = append(specs, &c20Spec{req: ms.Req, kind: kind, tags: ms.Tags})
+	}
+	// 3. recursive response types (C20 names them): generated, built and called like any other schema
+	recs := gen.MockRecursiveSchemas()
+	var recNames []string
+	for nme := range recs {
+		recNames = append(recNames, nme)
+	}
+	sort.Strings(recNames)
+	for _, nme := range recNames {
+		specs = append(specs, &c20Spec{req: recs[nme], kind: "recursive", tags: []string{"cell:recursive/" + nme}})
 	}
 	// accepted = every plugin answers without the mock option
 	accepted := make([]bool, len(specs))
@@ -523,6 +532,23 @@ func C20(c *Ctx) error {
 			replay["model"] = map[string]any{"defects": p.defects, "table": p.table}
 		}
 		// (a0) generation
+		if x.it.GenErr != "" && (strings.Contains(x.it.GenErr, "timeout") || strings.Contains(x.it.GenErr, "crash") || strings.Contains(x.it.GenErr, "oom")) {
+			// no answer at all (before b58be88: unbounded recursion on recursive response types)
+			res.Count("outcome:mock_generation_no_answer")
+			replay["plugin_error"] = firstLines(x.it.GenErr, 6)
+			if p != nil {
+				if !p.fin {
+					res.CorrAgree()
+				} else {
+					res.Corr("terminates", "go-http with generate_mock=true does not answer although the model's guarded recursion finishes: "+firstLine(x.it.GenErr), replay)
+				}
+			}
+			res.Divergence("generate:recursive_response_type", "go-http with generate_mock=true gives no mock file for an accepted schema: "+firstLine(x.it.GenErr), p != nil && !p.fin, replay)
+			continue
+		}
+		if p != nil && !p.fin {
+			res.Corr("terminates", "the model's recursion does not finish within #messages+2 levels although the plugin answered", replay)
+		}
 		if x.it.GenErr != "" {
 			res.Count("outcome:mock_generation_error")
 			replay["plugin_error"] = firstLines(x.it.GenErr, 4)
@@ -787,85 +813,5 @@ func C20(c *Ctx) error {
 		}
 	}
 
-	// 3. recursive response types: the plugin must answer (C16 owns termination in general; C20 names recursive message types)
-	recs := gen.MockRecursiveSchemas()
-	var names []string
-	for nme := range recs {
-		names = append(names, nme)
-	}
-	sort.Strings(names)
-	for _, nme := range names {
-		rq := recs[nme].Clone()
-		plain, err := plug.Run(plug.GoHTTP, rq, nil)
-		if err != nil {
-			return err
-		}
-		if !plain.OK() {
-			res.Count("refused_without_mock")
-			continue
-		}
-		rq.Parameter = "generate_mock=true"
-		pr, err := plug.Run(plug.GoHTTP, rq, &plug.RunOpts{Timeout: time.Duration(c.N(6, 15)) * time.Second, MemLimit: "1GiB"})
-		if err != nil {
-			return err
-		}
-		res.Case(map[string]any{"recursive": nme}, true)
-		res.Count("cell:recursive/" + nme)
-		cls := answerClass(pr)
-		replay := map[string]any{"schema": recs[nme], "parameter": "generate_mock=true", "class": cls, "stderr": firstLines(pr.Stderr, 5)}
-		fin := true
-		if drv.Available() {
-			f := recs[nme].Files[0]
-			o, err := drv.Run([]map[string]any{{"op": "mock_answer", "rq": recs[nme].ToModel(), "file": f.Name, "type": f.Services[0].Methods[0].Output, "decls": []any{}, "floats": []any{}}})
-			if err == nil && len(o) == 1 {
-				fin, _ = o[0]["finishes"].(bool)
-				if fin == (cls == "files") {
-					res.CorrAgree()
-				} else {
-					res.Corr("terminates", fmt.Sprintf("recursive shape %s: plugin outcome %s, model finishes=%v", nme, cls, fin), replay)
-				}
-			}
-		}
-		if cls != "files" {
-			res.Divergence("generate:recursive_response_type", fmt.Sprintf("go-http with generate_mock=true gives no mock file for an accepted schema whose response type reaches itself (%s): %s", nme, cls), !fin, replay)
-		}
-	}
-	// "emitted on request": the option is a boolean flag; every spelling a boolean flag accepts asks
-	// for (or declines) the mock
-	{
-		f := &ir.File{Name: "opt/api.proto", Package: "opt.v1", GoPackage: "example.com/gen/opt/v1;optv1",
-			Messages: []*ir.Message{{Name: "Q", Fields: []*ir.Field{{Name: "q", Number: 1, Kind: "string"}}}, {Name: "A", Fields: []*ir.Field{{Name: "name", Number: 1, Kind: "string"}, {Name: "ok", Number: 2, Kind: "bool"}}}},
-			Services: []*ir.Service{{Name: "Opt", Methods: []*ir.Method{{Name: "Get", Input: ".opt.v1.Q", Output: ".opt.v1.A", Config: &ir.HTTPConfig{Path: "/g", Method: "POST"}}}}}}
-		base := &ir.Request{Files: []*ir.File{f}, Generate: []string{f.Name}}
-		for _, sp := range []struct {
-			param string
-			want  bool
-		}{{"generate_mock=true", true}, {"generate_mock=1", true}, {"generate_mock=t", true}, {"generate_mock=T", true}, {"generate_mock=TRUE", true}, {"generate_mock=True", true},
-			{"generate_mock=false", false}, {"generate_mock=0", false}, {"generate_mock=F", false}, {"", false},
-			{"paths=source_relative,generate_mock=1", true}} {
-			rq := base.Clone()
-			rq.Parameter = sp.param
-			pr, err := plug.Run(plug.GoHTTP, rq, nil)
-			if err != nil {
-				return err
-			}
-			res.Case(map[string]any{"option_spelling": sp.param}, true)
-			res.Count("cell:option_spelling")
-			got := false
-			for n := range pr.Files {
-				if strings.HasSuffix(n, "_http_mock.pb.go") {
-					got = true
-				}
-			}
-			replay := map[string]any{"schema": base, "parameter": sp.param, "files": pr.Order, "class": answerClass(pr), "stderr": firstLines(pr.Stderr, 3)}
-			if !pr.OK() {
-				res.Violation("option_spelling:error", fmt.Sprintf("go-http answers %s for parameter %q", answerClass(pr), sp.param), replay)
-			} else if got != sp.want {
-				res.Violation("option_spelling:mock_emitted_mismatch", fmt.Sprintf("parameter %q: mock file emitted=%v, a boolean flag means %v", sp.param, got, sp.want), replay)
-			} else {
-				res.CorrAgree()
-			}
-		}
-	}
 	return nil
 }
